@@ -4118,3 +4118,66 @@ impl BackendWriteTransaction<'_> {
         })
     }
 }
+
+/// verif hook (C13): everything a backup has to reproduce, read through the transaction:
+/// raw id2entry rows, the database identifiers, the key handles (canonical JSON) and the
+/// in-memory replication update vector (change ids with their id lists, per-server ranges).
+#[cfg(feature = "verif-hooks")]
+pub struct VerifC13Dump {
+    pub rows: Vec<(u64, Vec<u8>)>,
+    pub s_uuid: Option<Uuid>,
+    pub d_uuid: Option<Uuid>,
+    pub ts_max: Option<Duration>,
+    pub keyhandles: String,
+    pub ruv: Vec<(Cid, Vec<u64>)>,
+    pub ranged: Vec<(Uuid, Vec<Duration>)>,
+}
+
+#[cfg(feature = "verif-hooks")]
+pub fn verif_c13_dump<T: BackendTransaction>(be: &mut T) -> Result<VerifC13Dump, OperationError> {
+    let ruv = be
+        .get_ruv()
+        .ruv_snapshot()
+        .iter()
+        .map(|(cid, idl)| (cid.clone(), idl.into_iter().collect::<Vec<u64>>()))
+        .collect();
+    let ranged = be
+        .get_ruv()
+        .range_snapshot()
+        .iter()
+        .map(|(s_uuid, set)| (*s_uuid, set.iter().copied().collect::<Vec<Duration>>()))
+        .collect();
+    let idlayer = be.get_idlayer();
+    let rows = idlayer
+        .get_identry_raw(&IdList::AllIds)?
+        .into_iter()
+        .map(|r| (r.id, r.data))
+        .collect();
+    let s_uuid = idlayer.get_db_s_uuid()?;
+    let d_uuid = idlayer.get_db_d_uuid()?;
+    let ts_max = idlayer.get_db_ts_max()?;
+    let keyhandles = serde_json::to_string(&idlayer.get_key_handles()?)
+        .map_err(|_| OperationError::SerdeJsonError)?;
+    Ok(VerifC13Dump {
+        rows,
+        s_uuid,
+        d_uuid,
+        ts_max,
+        keyhandles,
+        ruv,
+        ranged,
+    })
+}
+
+#[cfg(feature = "verif-hooks")]
+impl BackendWriteTransaction<'_> {
+    /// verif hook (C13): the change ids persisted in the `ruv` table.
+    pub fn verif_c13_db_ruv(&mut self) -> Result<Vec<Cid>, OperationError> {
+        self.idlayer.get_db_ruv().map(|s| s.into_iter().collect())
+    }
+
+    /// verif hook (C13): the cached maximum entry id new entries are numbered from.
+    pub fn verif_c13_max_id(&mut self) -> Result<u64, OperationError> {
+        self.idlayer.get_id2entry_max_id()
+    }
+}
